@@ -4,6 +4,31 @@ From Coq Require Import List NArith ZArith Bool.
 From MPS Require Import Model.Bytes Model.Sx Model.Framing.
 Import ListNotations.
 
+(* compressed point: (x odd) *)
+Definition cpoint_of_sx (s : sx) : option cpoint :=
+  match s with
+  | Li [x; o] => do x <- as_N x; do o <- as_bool o; Some (x, o)
+  | _ => None end.
+
+(* config.Public: (ecdsa elgamal paillierN pedN pedS pedT) *)
+Definition public_of_sx (s : sx) : option cmp_public :=
+  match s with
+  | Li [e; g; pn; n; s; t] =>
+      do e <- cpoint_of_sx e; do g <- cpoint_of_sx g; do pn <- as_N pn;
+      do n <- as_N n; do s <- as_N s; do t <- as_N t; Some (mkCmpPublic e g pn n s t)
+  | _ => None end.
+
+(* config.Config: (threshold rid_opt ((id public) ...)) *)
+Definition config_of_sx (s : sx) : option cmp_config :=
+  match s with
+  | Li [At t; rid; pubs] =>
+      do rid <- as_opt as_bytes rid;
+      do pubs <- as_list_of (fun e => match e with
+                                      | Li [Bs id; p] => do p <- public_of_sx p; Some (id, p)
+                                      | _ => None end) pubs;
+      Some (mkCmpConfig t rid pubs)
+  | _ => None end.
+
 (* hval encoding: (tag args...) *)
 Definition hval_of_sx (s : sx) : option hval :=
   match s with
@@ -26,6 +51,12 @@ Definition hval_of_sx (s : sx) : option hval :=
   | Li [At 16%Z; c] => do c <- as_N c; Some (HCiphertext c)
   | Li [At 17%Z; n] => do n <- as_N n; Some (HPaillierPK n)
   | Li [At 18%Z; n; s; t] => do n <- as_N n; do s <- as_N s; do t <- as_N t; Some (HPedersen n s t)
+  | Li [At 19%Z; c; co] => do c <- as_bool c; do co <- as_opt (as_list_of cpoint_of_sx) co; Some (HExponent c co)
+  | Li [At 20%Z; l; m] => do l <- cpoint_of_sx l; do m <- cpoint_of_sx m; Some (HElGamal l m)
+  | Li [At 21%Z; c] => do c <- cpoint_of_sx c; Some (HSchCommitment c)
+  | Li [At 22%Z; o] => do b <- as_opt as_bytes o; Some (HMessageHash b)
+  | Li [At 23%Z; o] => do p <- as_opt public_of_sx o; Some (HCmpPublic p)
+  | Li [At 24%Z; o] => do c <- as_opt config_of_sx o; Some (HCmpConfig c)
   | _ => None
   end.
 
@@ -34,6 +65,14 @@ Definition op_c19_write (arg : sx) : option sx :=
   do vs <- as_list_of hval_of_sx arg;
   let '(st, ok) := write_any init_state vs in
   Some (Li [Bs st; sx_bool ok]).
+
+(* "c19.items": (hvals) -> per value () | (dom dat wf)  -- the item WriteAny frames (domain string and payload,
+   to be compared with Domain() / WriteTo directly) and whether the value is inside [wf_hval] *)
+Definition op_c19_items (arg : sx) : option sx :=
+  do vs <- as_list_of hval_of_sx arg;
+  Some (Li (map (fun v => match enc_hval v with
+                          | Some i => Li [Bs (dom i); Bs (dat i); sx_bool (wf_hval v)]
+                          | None => Li [] end) vs)).
 
 (* "c19.commit_input": (hvals decommitment) -> (input) | () *)
 Definition op_c19_commit_input (arg : sx) : option sx :=
